@@ -222,17 +222,57 @@ def r4(ctx):
             ok = len(sc) == 1 and len(neg) == 1 and neg[0]["r"][2][1]["l"] == sc[0][1]["d"]["l"]
             det = "retain(|s| !same_channel(s, sender)): same_channel calls %d, negated result returned %s" % (len(sc), bool(neg))
     ctx.check(ok, "C12.R4", u.path, "retains-the-other-senders", det, u.sp)
+    from .common import chain_has_call, outer_leaves
     s = f.body("sync::Subscribers::send")
-    fam = f.family(s.path)
-    ctx.touch(*fam)
-    names = [t["f"].get("name") for b in fam for _, t in b.calls()]
-    ok = "send" in names and "ok" in names and "map" in names and ("flatten" in names or "filter_map" in names) and "collect" in names
-    ctx.check(ok, "C12.R4", s.path, "keeps-sender-iff-send-ok", "send(event).await.ok().map(|_| tx) ... flatten().collect() (calls present: %s)" % sorted(set(names) & {"send", "ok", "map", "flatten", "collect", "clone", "join_all"}), s.sp)
+    sc = f.scope(s.path, prefix="sync::")
+    ctx.touch(*sc)
+    sends = [(x, bi, t) for x in sc for bi, t in x.calls() if t["f"].get("name") == "send" and callee_matches(t, r"async_channel::Sender")]
+    ok = len(sends) == 1
+    det = "%d calls of Sender::send in Subscribers::send and its helpers" % len(sends)
+    if ok:
+        x, bi, t = sends[0]
+        # evaluate the per-subscriber future (K6', awaits driven to completion) for a successful and a failed send
+        from . import feval as E
+        ctor = f.bodies.get(x.parent) if x.rec.get("closure_kind") == "coroutine" else None
+        rows = {}
+        awaited = set()
+        if ctor is None:
+            rows = {"form": "UNSUPPORTED-FORM: Sender::send is not awaited in an async closure / fn"}
+        else:
+            for res in ("ok", "err"):
+                def oracle(kind, name, payload, site, res=res):
+                    if kind == "await" and name.startswith("send("):
+                        awaited.add(name)
+                        return E.Ok(E.UNIT) if res == "ok" else E.Err(E.Tok("closed"))
+                    return None
+                heap = {}
+                try:
+                    args = E.default_args(f, ctor.path, heap)
+                    out, hp, evs = E.run_async(f, ctor.path, args, heap, oracle)
+                    rows[res] = E.describe(out, f)
+                except E.Unsupported as e:
+                    rows[res] = "UNSUPPORTED-FORM: %s" % e
+        sender_names = {n for n in (rows.get("ok") or "").replace("Some(", "").replace(")", "").split(",") if n}
+        ok = bool(rows.get("ok", "").startswith("Some(")) and (rows.get("err") == "None" or rows.get("err") == rows.get("ok")) and len(awaited) == 1 and \
+            all(a.startswith("send(%s," % sn) and "event" in a for a in awaited for sn in sender_names) and len(sender_names) == 1
+        det = "per-subscriber future in %s: send ok -> %s, send failed -> %s; awaited %s (spec: a subscriber whose send of this event succeeded stays subscribed; one whose channel is closed may be dropped - keeping it harms nobody)" % (ctor.path if ctor else x.path, rows.get("ok"), rows.get("err"), sorted(awaited))
+    ctx.check(ok, "C12.R4", s.path, "keeps-sender-iff-send-ok", det, s.sp)
+    # the subscriber list is rebuilt from the previous list, not cleared
+    sb = f.body(s.path + "::{closure#0}")
+    ws = [(bi, st) for bi, si, st in sb.statements() if st["k"] == "assign" and st["p"]["p"] and st["p"]["p"][-1][0] == "field" and st["p"]["p"][-1][1] == 0 and not mir.is_noise(st["x"])
+          and any(pr[0] == "deref" for pr in st["p"]["p"])]
+    okw = False
+    if len(ws) == 1:
+        st = ws[0][1]
+        src = st["r"][1] if st["r"][0] == "use" else None
+        okw = src is not None and chain_has_call(sb, src, lambda tt: tt["f"].get("name") in ("take", "replace", "drain", "clone", "iter", "into_iter") and any(
+            any(pr[0] == "field" and pr[1] == 0 for pr in o.projs) for a in tt["a"][:1] if a[0] != "const" for o in trace(sb, a)), max_depth=16)
+    ctx.check(okw, "C12.R4", s.path, "list-rebuilt-from-previous-senders", "self.0 is assigned once, from a chain that starts at the previous self.0 (%d writes)" % len(ws), s.sp)
     sw = f.body("sync::Subscribers::send_with::{closure#0}")
     ctx.touch(sw)
     ok = any(t["f"].get("name") == "send" for _, t in sw.calls()) and any(t["f"].get("name") == "call_once" for _, t in sw.calls())
     ctx.check(ok, "C12.R4", sw.path, "send_with-sends-the-built-event", "send_with = if !empty { send(f()) }", sw.sp)
-    ctx.floor("C12.R4", 3)
+    ctx.floor("C12.R4", 4)
 
 
 def run(ctx):
